@@ -571,6 +571,25 @@ pub fn run(opts: &Opts, out: &mut Emitter) {
     for (name, text) in corpus.iter() {
         out.case("corpus", || json!({"input": text, "name": name, "obs": observe(text)}));
     }
+    // (a') literal sweep: every literal token of every example replaced, one at a time, by a
+    // pathological literal of each kind (position-complete over the corpus, no sampling)
+    for (name, text) in corpus.iter() {
+        let toks = tokens(text);
+        for (at, t) in toks.iter().enumerate() {
+            let first = t.chars().next().unwrap_or(' ');
+            let is_lit = first.is_ascii_digit() || first == '"';
+            if !is_lit {
+                continue;
+            }
+            let repls: &[&str] = if opts.thorough { &["0xabc", "0x0", "99999999999999999999", "-9223372036854775809", "\"é✓😀\"", "0xab#1", "()"] } else { &["0xabc", "99999999999999999999"] };
+            for rep in repls {
+                let mut ts = toks.clone();
+                ts[at] = rep.to_string();
+                let variant = ts.concat();
+                out.case("literal-sweep", || json!({"input": variant, "name": name, "obs": observe(&variant)}));
+            }
+        }
+    }
     // per-rule expansions embedded where they may occur keep the error rate moderate: a whole
     // program expansion is the main stream, single-rule expansions are spliced into a valid frame
     let frames: Vec<(&str, &str, &str)> = vec![
@@ -620,7 +639,7 @@ pub fn run(opts: &Opts, out: &mut Emitter) {
                 }
                 out.case("grammar-rule", || json!({"input": text, "rule": rule, "obs": observe(&text)}));
             }
-            6..=8 => {
+            6..=7 => {
                 // (c) mutations of the corpus and of generated programs
                 let base = if !generated.is_empty() && r.chance(1, 3) { r.pick(&generated).clone() } else { r.pick(&corpus).1.clone() };
                 let donor = r.pick(&corpus).1.clone();
@@ -634,7 +653,7 @@ pub fn run(opts: &Opts, out: &mut Emitter) {
                 }
                 out.case("mutation", || json!({"input": text, "mutations": kinds, "obs": observe(&text)}));
             }
-            9 if k % 20 == 9 => {
+            8 => {
                 // (f) semantic mutations of generated core programs (C13's stream)
                 let (text, kinds, _) = crate::c13::mutated_source(&mut r);
                 out.case("semantic-mutation", || json!({"input": text, "mutations": kinds, "obs": observe(&text)}));
